@@ -258,7 +258,8 @@ def _ftconfig(ctx):
     if not accepts(ctx["fn"], "ftConfig"):
         return False
     # an options object owned by the caller
-    ctx["opts"]["ftConfig"] = {"fontTools.otlLib.optimize.gpos:COMPRESSION_LEVEL": 9}
+    from fontTools.otlLib.optimize.gpos import COMPRESSION_LEVEL
+    ctx["opts"]["ftConfig"] = {COMPRESSION_LEVEL: 9}
     return True
 
 
@@ -463,7 +464,8 @@ def build_sources(ctx, module):
 def owned_snapshot(src, ctx=None):
     snap = _owned_snapshot(src)
     if ctx is not None and "ftConfig" in ctx["opts"]:
-        snap["options"] = {"ftConfig": S.plain(ctx["opts"]["ftConfig"])}
+        snap["options"] = {"ftConfig": sorted((getattr(k, "name", str(k)), v)
+                                              for k, v in ctx["opts"]["ftConfig"].items())}
     return snap
 
 
